@@ -243,6 +243,15 @@ def step {α} (s : Scope α) (op : Op α) : Scope α × Res α :=
       | .ok (c', seen) => (update s (key n) c', .rows seen)
   | .dml => (s, .ok)
 
+/-- OPEN of a cursor whose query cannot be evaluated any more (its prepared statement / temporary view was
+    disposed): the guards of `Cursor.Open` come first — "undeclared" and "already open" are reported as
+    usual (and nothing is evaluated); only a closed cursor gets as far as the evaluation, whose own error is
+    then reported (`none`).  Nothing changes in any case. -/
+def stepOpenFailing {α} (s : Scope α) (n : String) : Option Err :=
+  match (step s (.open n [])).2 with
+  | .err e => some e
+  | _ => none
+
 /-- run a history; results in order -/
 def run {α} (s : Scope α) (ops : List (Op α)) : Scope α × List (Res α) :=
   match ops with
